@@ -158,7 +158,7 @@ func negotiateFeatures(ctx context.Context, s *Session, first, ws bool, features
 			// If we received an empty list (or one with no supported features), we're
 			// done.
 			return Ready, nil, nil
-		case len(list.cache) == 0:
+		case !anyEligible(s.state, list):
 			// If we received a list with features we support but where none of them
 			// could be negotiated (eg. they were advertised in the wrong order), this
 			// is an error:
@@ -207,7 +207,7 @@ func negotiateFeatures(ctx context.Context, s *Session, first, ws bool, features
 			// informational only and not meant to be negotiated: error.
 			_, negotiated := s.negotiated[start.Name.Space]
 			data, sent = list.cache[start.Name.Space]
-			if !sent || negotiated || data.feature.Negotiate == nil {
+			if !sent || negotiated || data.feature.Negotiate == nil || !eligible(s.state, data.feature) {
 				// TODO: What should we return here?
 				return mask, rw, stream.PolicyViolation
 			}
@@ -242,6 +242,10 @@ func negotiateFeatures(ctx context.Context, s *Session, first, ws bool, features
 					if _, ok := s.negotiated[v.feature.Name.Space]; ok || v.feature.Negotiate == nil {
 						// If this feature has already been negotiated, or is informational
 						// only with no negotiation, skip it.
+						continue
+					}
+					if !eligible(s.state, v.feature) {
+						// Its prerequisites do not hold in the current state.
 						continue
 					}
 
@@ -291,6 +295,20 @@ func negotiateFeatures(ctx context.Context, s *Session, first, ws bool, features
 	}
 
 	return mask, rw, err
+}
+
+// eligible reports whether the feature's declared prerequisites hold in state.
+func eligible(state SessionState, f StreamFeature) bool {
+	return state&f.Necessary == f.Necessary && state&f.Prohibited == 0
+}
+
+func anyEligible(state SessionState, list *streamFeaturesList) bool {
+	for _, v := range list.cache {
+		if eligible(state, v.feature) {
+			return true
+		}
+	}
+	return false
 }
 
 type sfData struct {
@@ -420,14 +438,15 @@ parsefeatures:
 				}
 				sf.req = sf.req || req
 
-				if s.state&feature.Necessary == feature.Necessary &&
-					s.state&feature.Prohibited == 0 {
+				// Whether the feature's prerequisites hold is decided when it is
+				// selected, not here: negotiating another feature of the same list may
+				// change the session state in the meantime.
+				sf.cache[tok.Name.Space] = sfData{
+					req:     req,
+					feature: feature,
+				}
 
-					sf.cache[tok.Name.Space] = sfData{
-						req:     req,
-						feature: feature,
-					}
-
+				if eligible(s.state, feature) {
 					// Since we do support the feature, add it to the connections list
 					// along with any data returned from Parse.
 					s.features[tok.Name.Space] = data
